@@ -403,6 +403,7 @@ PlanText(plan) == [i \in 1..Len(plan) |->
 Emit == phase = "done" =>
     PrintT(<<"REPLAY", ToJson([
         def |-> DefText(prog, style),
+        ast |-> prog,
         style |-> style,
         resources |-> ResourceTexts,
         data |-> DataC,
